@@ -23,7 +23,10 @@ structure Args where
 /-- `f(x, *args, **kwargs)` -/
 def Args.push (a : Args) (x : Nat) : Args := { a with pos := x :: a.pos }
 
-/-- `f(*args)` if instance is None else `f(instance, *args)` -/
+/-- `f(*args)` if instance is None else `f(instance, *args)`.
+    The test in the code is `is None`, which is exactly the `Option` here: a receiver token has no truth value in
+    the model, so an instance (or class) that is FALSY - `__len__() == 0`, `__bool__() is False` - is prepended like
+    any other (the harness runs every instance binding with falsy receivers too; `C09_truthiness_history_irrelevant`). -/
 def Args.pushOpt (a : Args) : Option Nat → Args
   | none => a
   | some x => a.push x
@@ -164,6 +167,9 @@ def baseGet (d : Obj) (owner : Option Nat) (cls : Nat) : Obj :=
   else .binder d (if d.dtype = .classm then some cls else owner)
 
 /-- attribute access through an instance (`owner = some i`) or a class (`owner = none`): `type(o).__get__(o, owner, cls)`.
+    A pure function: neither `DecoratorBase.__get__` nor the pair override keeps anything between two accesses
+    (each access of a pair builds a FRESH copy), so the result never depends on which accesses came before - the
+    harness checks that by looking the attribute up through the other paths first (`Case.pre`).
     AsyncAndSyncPairDecorator.__get__ (decorators.py:263-280) first binds sync_fn, re-wraps fn in its
     staticmethod / classmethod type, builds a fresh pair decorator and applies the base `__get__` to it. -/
 def descrGet (o : Obj) (owner : Option Nat) (cls : Nat) : Obj :=
@@ -732,6 +738,8 @@ structure Case where
   raises : Bool
   sig : SigKind
   args : Args
+  falsy : Bool := false          -- the generated instances and classes are falsy objects
+  pre : List Access := []        -- look-ups of the same attribute performed BEFORE the observed access
   deriving Repr, DecidableEq, Inhabited
 
 def Case.theSig (c : Case) : Sig := mkSig c.sig (hasRecvParam c.cell.ft c.cell.acc)
